@@ -188,13 +188,15 @@ func buildColumnMap(conn *sql.DB, database string, table *sqlgen.Table) (*column
 		expectedColumns: len(columns),
 	}
 
+	// Column names are not case sensitive in MySQL: a struct column "name" reads
+	// a column declared as "Name".
 	columnIndex := make(map[string]int)
 	for i, column := range columns {
-		columnIndex[column] = i
+		columnIndex[strings.ToLower(column)] = i
 	}
 
 	for _, column := range table.Columns {
-		if idx, ok := columnIndex[column.Name]; ok {
+		if idx, ok := columnIndex[strings.ToLower(column.Name)]; ok {
 			columnMap.source = append(columnMap.source, idx)
 		} else {
 			columnMap.source = append(columnMap.source, -1)
